@@ -2,6 +2,7 @@
 import json
 import math
 import os
+import re
 import subprocess
 import sys
 import warnings
@@ -33,6 +34,9 @@ ASSUMPTIONS = [
     '(the theorem covers every interleaving; the run samples some)',
     'float arithmetic of mutual_information / weighted_mi / kl_divergence / shannon_entropy agrees with the exact '
     'rational terms of the model within 1e-9 (rounding is not modelled)',
+    'not modelled, exercised on the real code only: memory layout (C / Fortran / strided / reversed views), '
+    'weighted_mi\'s trailing np.clip(mi, 0, inf) (the harness applies max(0, .) to the model value) and its default '
+    'state counts (features.max()+1 in the feature dtype, stored as int16; the model uses max+1 as an integer)',
     'state counts passed to the kernel fit a C int (larger values raise OverflowError, modelled and checked)',
 ]
 TRUSTED_EXTRA = ['Model.Sched / Proofs.Sched (interleaving independence, shared with C13/C15)']
@@ -41,6 +45,82 @@ DTYPES = ['int8', 'int16', 'int32', 'int64', 'uint8', 'uint16', 'uint32', 'uint6
 LAYOUTS = ['C', 'F', 'strided', 'reversed']
 TOL = 1e-9
 HERE = os.path.dirname(os.path.abspath(__file__))
+
+
+# --------------------------------------------------------------------------------------
+# translator: the statements of the two counting kernels, extracted from libinfo.pyx on every run
+
+def _lean_str(x):
+    return '"' + x.replace('\\', '\\\\').replace('"', '\\"') + '"'
+
+
+def _kernel_statements(src, name):
+    """code lines of `def name(...)` after its signature, as 'indent|statement' (comments, blank lines and
+    string-literal assert messages' whitespace normalised; decorators of the next function excluded)"""
+    lines = src.split('\n')
+    out, inside, in_sig = [], False, False
+    for ln in lines:
+        code = re.sub(r'#.*$', '', ln).rstrip()
+        if not inside:
+            if re.match(r'^def\s+%s\s*\(' % re.escape(name), code):
+                inside, in_sig = True, not code.rstrip().endswith('):')
+            continue
+        if in_sig:
+            in_sig = not code.rstrip().endswith('):')
+            continue
+        if code and not code.startswith(' '):
+            break                       # next top-level statement / decorator
+        if not code.strip():
+            continue
+        indent = len(code) - len(code.lstrip(' '))
+        out.append('%d|%s' % (indent, re.sub(r'\s+', ' ', code.strip())))
+    return out
+
+
+def _fused(src):
+    res = {}
+    for m in re.finditer(r'ctypedef fused (\w+):\n((?:[ \t]+.*\n)+)', src):
+        res[m.group(1)] = re.findall(r'np\.(\w+)_t', m.group(2))
+    return res
+
+
+def translate(repo_dir, gen_dir):
+    path = os.path.join(repo_dir, 'enspara', 'info_theory', 'libinfo.pyx')
+    with open(path) as f:
+        src = f.read()
+    import hashlib
+    sha = hashlib.sha256(src.encode()).hexdigest()
+    bodies = {k: _kernel_statements(src, k) for k in ('matrix_bincount2d', 'bincount2d')}
+    fused = _fused(src)
+    L = ['/-! GENERATED by harness/props/c18.py `translate` from enspara/info_theory/libinfo.pyx -- do not edit;',
+         'regenerated on every run.  Re-checked by `C18.kernel_source_as_modelled` (a `decide` over these lists):',
+         'the loop nest, the indices of the `+= 1` and the asserts of the source are the ones `Model.Info` mirrors. -/',
+         'namespace Ens.Info.Gen', '',
+         'def sourceSha256 : String := %s' % _lean_str(sha), '',
+         '/-- `ctypedef fused` blocks: name, member element types -/',
+         'def fused : List (String × List String) :=',
+         '  [' + ', '.join('(%s, [%s])' % (_lean_str(k), ', '.join(_lean_str(x) for x in v))
+                          for k, v in sorted(fused.items())) + ']', '']
+    for k in ('matrix_bincount2d', 'bincount2d'):
+        nm = 'matrixBincount2dBody' if k == 'matrix_bincount2d' else 'bincount2dBody'
+        L.append('/-- statements of `%s` as `indent|statement`, in source order -/' % k)
+        L.append('def %s : List String :=' % nm)
+        L.append('  [' + ',\n   '.join(_lean_str(x) for x in bodies[k]) + ']')
+        L.append('')
+    L.append('end Ens.Info.Gen')
+    text = '\n'.join(L) + '\n'
+    os.makedirs(gen_dir, exist_ok=True)
+    out = os.path.join(gen_dir, 'InfoKernel.lean')
+    old = None
+    if os.path.exists(out):
+        with open(out) as f:
+            old = f.read()
+    if old != text:
+        with open(out, 'w') as f:
+            f.write(text)
+    return {'summary': 'libinfo.pyx sha256 %s: fused %s; %d + %d kernel statements' % (
+        sha[:12], {k: len(v) for k, v in fused.items()}, len(bodies['matrix_bincount2d']), len(bodies['bincount2d'])),
+        'file': 'lean/Model/Generated/InfoKernel.lean', 'source_sha256': sha}
 
 
 # --------------------------------------------------------------------------------------
@@ -1272,6 +1352,18 @@ def gen_wmi_case(rng, idx=None):
             'argstyle': str(rng.choice(['pos', 'kw']))}
 
 
+def gen_wmi_edge(rng, k):
+    """default n_feature_states with an id equal to the feature dtype's maximum (127 in int8, 255 in uint8):
+    `features.max() + 1` must not wrap"""
+    dtype, top = [('int8', 127), ('uint8', 255)][k % 2]
+    T, F = int(rng.integers(2, 5)), int(rng.integers(1, 3))
+    rows = [[int(rng.choice([0, 1, top - 1, top])) for _ in range(F)] for _ in range(T)]
+    rows[0][0] = top
+    return {'kind': 'wmi', 'rows': rows, 'T': T, 'F': F, 'n': top + 1, 'w': [1.0 / T] * T, 'nfs': None,
+            'mode': 'uniform', 'dtype': dtype, 'container': 'ndarray', 'nfs_kind': 'list', 'argstyle': 'pos',
+            'edge': 'default-states-at-dtype-max'}
+
+
 def wmi_args(case):
     X = np.array(case['rows'], dtype=case['dtype']).reshape(case['T'], case['F'])
     cont = case.get('container', 'ndarray')
@@ -1306,7 +1398,8 @@ def check_wmi(ctx, case, model):
                                                     'features-dtype=' + case['dtype'],
                                                     'nfs-default' if case['nfs'] is None else
                                                     'nfs-' + case.get('nfs_kind', 'list'),
-                                                    'args-' + case.get('argstyle', 'pos')])
+                                                    'args-' + case.get('argstyle', 'pos')] +
+             (['wmi-' + case['edge']] if case.get('edge') else []))
     snap = (X.tobytes(), repr(w) if not isinstance(w, np.ndarray) else w.tobytes())
     try:
         with warnings.catch_warnings():
@@ -1318,7 +1411,11 @@ def check_wmi(ctx, case, model):
                 nrm = call_wmi(case, X, w, nfs, True)
             again = call_wmi(case, X, w, nfs, False)        # same argument objects, second call
     except BaseException as e:  # noqa
-        ctx.violation('weighted_mi on a valid weighted sample raised %s: %s' % (type(e).__name__, str(e)[:80]), case)
+        # default state counts are computed in the feature dtype and stored as int16: they wrap for an id equal
+        # to the dtype maximum (known finding)
+        key = 'weighted-default-states-dtype-wrap' if (case.get('edge') and case['nfs'] is None) else None
+        ctx.violation('weighted_mi on a valid weighted sample raised %s: %s' % (type(e).__name__, str(e)[:80]),
+                      case, key=key)
         return
     if snap != (X.tobytes(), repr(w) if not isinstance(w, np.ndarray) else w.tobytes()):
         ctx.violation('weighted_mi modified its arguments', case)
@@ -1957,7 +2054,7 @@ def run(ctx):
             check_mi_matrix(ctx, c, None)
     lap('mi_matrix')
     # 5. weighted_mi
-    wm = [gen_wmi_case(rng, i) for i in range(ctx.n(88, 2200))]
+    wm = [gen_wmi_case(rng, i) for i in range(ctx.n(88, 2200))] + [gen_wmi_edge(rng, k) for k in range(ctx.n(1, 8))]
     resp = ctx.driver([wmi_request(c) for c in wm])
     for c, r in zip(wm, resp):
         check_wmi(ctx, c, r)
